@@ -144,6 +144,10 @@ func ExportPrivateKey(keyPath string, passphrase []byte) ([]byte, error) {
 	}
 
 	// Decrypt the private key
+	if len(data.Nonce) != gcm.NonceSize() {
+		// gcm.Open panics on a nonce of the wrong length
+		return nil, fmt.Errorf("invalid key file: nonce has %d bytes, expected %d", len(data.Nonce), gcm.NonceSize())
+	}
 	privKeyBytes, err := gcm.Open(nil, data.Nonce, data.PrivKeyEncrypted, nil)
 	if err != nil {
 		return nil, fmt.Errorf("failed to decrypt private key (wrong passphrase): %w", err)
@@ -350,6 +354,10 @@ func (s *FileSystemSigner) loadKeys(passphrase []byte) error {
 	}
 
 	// Decrypt the private key
+	if len(data.Nonce) != gcm.NonceSize() {
+		// gcm.Open panics on a nonce of the wrong length
+		return fmt.Errorf("invalid key file: nonce has %d bytes, expected %d", len(data.Nonce), gcm.NonceSize())
+	}
 	privKeyBytes, err := gcm.Open(nil, data.Nonce, data.PrivKeyEncrypted, nil)
 	if err != nil {
 		return fmt.Errorf("failed to decrypt private key (wrong passphrase?): %w", err)
